@@ -72,6 +72,9 @@ def atom_cmp(atom, label, subst=None):
     a = strip_transparent(atom)
     if a.k == 'bin' and a.op in CMP_FLIP:
         op = a.op if label else CMP_NEG[a.op]
+        if const_value(a.a[0]) is not None and const_value(a.a[1]) is None:
+            # `0 == x` is `x == 0`: the constant goes to the right
+            return {'<': '>', '>': '<', '<=': '>=', '>=': '<=', '==': '==', '!=': '!='}[op], a.a[1], a.a[0]
         return op, a.a[0], a.a[1]
     zero = E('int', val=0, t='int')
     return ('!=' if label else '==', a, zero)
